@@ -97,11 +97,12 @@ fn extra_engines(prop: &str, tier: Tier, seed: u64, planned: u64, first: &std::c
         // (mode, scenarios, interpreter seeds per scenario, pre-emption rates, also without the prefetch feature)
         // c18all: one tiny value of every structure family per execution, so a data race anywhere is in reach
         // c18big: rank/select structures large enough for their sampled search paths (3 kinds, by scenario index)
-        ("C18", Tier::Quick) => vec![("c18all", 3, 5, &["0.3"], false), ("c18big", 3, 4, &["0.3"], false)],
+        ("C18", Tier::Quick) => vec![("c18all", 3, 5, &["0.3"], false), ("c18big", 3, 4, &["0.3"], false), ("c18quad", 2, 4, &["0.3"], false)],
         ("C18", Tier::Thorough) => vec![
             ("c18", 4, 16, &["0.01", "0.1", "0.5"], false),
             ("c18all", 3, 16, &["0.05", "0.5"], false),
             ("c18big", 3, 12, &["0.1", "0.5"], false),
+            ("c18quad", 4, 12, &["0.1", "0.5"], false),
         ],
         ("C02", Tier::Thorough) => vec![("c02", 4, 32, &["0.01"], false)],
         ("C03", Tier::Thorough) => vec![("c03", 4, 32, &["0.01"], false)],
